@@ -38,7 +38,7 @@ RULE_PROG = "K layers: generated programs / sessions (sizes, statement mix from 
 
 PROPS = {
     "C01": _p(
-        "Floor theorems on the model: WHILE/WEND pairing is bracket matching, every resolved reference is patched to the address of its LINE's symbol, ON selects 1-based / falls through / rejects negatives, IfNot branches on zero, NEXT compares by the sign of the step. The whole-program simulation is not proved; it is covered by (K) op-for-op equality of the compiled program and lockstep of the VM state with the real interpreter, and by (F) a statement-by-statement reference interpreter over structured programs (FOR/WHILE/IF/GOSUB/ON/early exits) whose predicted transcript must equal the real one.",
+        "Theorem compileExpr_correct: for every pure expression tree (literals, scalars, all unary/binary operators, 22 one-argument built-ins) the generated code is its postfix form and, from ANY machine state, running it pushes exactly the value the documented evaluation gives, or stops at the first failing operation with the variables untouched. Floor theorems on the model: WHILE/WEND pairing is bracket matching, every resolved reference is patched to the address of its LINE's symbol, ON selects 1-based / falls through / rejects negatives, IfNot branches on zero, NEXT compares by the sign of the step. The whole-program simulation is not proved; it is covered by (K) op-for-op equality of the compiled program and lockstep of the VM state with the real interpreter, and by (F) a statement-by-statement reference interpreter over structured programs (FOR/WHILE/IF/GOSUB/ON/early exits) whose predicted transcript must equal the real one.",
         "Partial: per-mechanism lemmas proved, program_sim is exploration (correspondence + reference interpreter). Trusted: Lean kernel, the model's tie to /repo (differential), the reference interpreter in harness/src/find2.rs.",
         ["compile", "ses", "find-c01"], RULE_PROG, partial="whole-program simulation theorem not proved (DESIGN section 8 C01 target)"),
     "C02": _p(
@@ -53,11 +53,11 @@ PROPS = {
         "Partial by nature: native stack overflow, allocation failure and wall-clock hangs of the Rust runtime are not exhibited by the model; they are only explored (fuzzing with bounded nesting). Panic sites are modelled by convention (faults in Var.lean/Listing.lean) and tied by the correspondence.",
         ["parse", "hist", "find-c03"], RULE_PROG, partial="aborts/stack overflow/hangs: exploration only"),
     "C04": _p(
-        "Theorems: entering a numbered line cancels the CONT point, the value stack and the function table and marks the program dirty (a bare number for an absent line changes nothing); a direct line on a dirty program recompiles from the current listing before running; recompilation after clear equals compilation from scratch up to the data cursor (which RUN's CLEAR resets); only DELETE/RENUM/NEW change the listing. K: edit histories with state lockstep. F: history-vs-fresh relation on the real interpreter (RUN, RUN n, CONT, RETURN, NEXT, FN after edits).",
-        "Trusted: Lean kernel, model tie (differential). The end-to-end 'RUN = fresh RUN' is obtained from the proved state equalities plus determinism; the relation itself is additionally evaluated on the implementation.",
+        "Theorems inv_reachable / run_eq_fresh / edit_then_resume_refused: the invariant 'the compiled image is the compilation of the listing, or dirty is set' holds after EVERY history of API calls; a direct line entered in any reachable state compiles to the program a fresh interpreter given the listing would compile, and RUN's state after CLEAR is field-for-field that of the fresh interpreter; after an edit CONT, RETURN, NEXT and FN are refused. Theorems: entering a numbered line cancels the CONT point, the value stack and the function table and marks the program dirty (a bare number for an absent line changes nothing); a direct line on a dirty program recompiles from the current listing before running; recompilation after clear equals compilation from scratch up to the data cursor (which RUN's CLEAR resets); only DELETE/RENUM/NEW change the listing. K: edit histories with state lockstep. F: history-vs-fresh relation on the real interpreter (RUN, RUN n, CONT, RETURN, NEXT, FN after edits).",
+        "Trusted: Lean kernel, model tie (differential). run_then_same_session: equal states give equal further sessions (determinism), so RUN after any history behaves as in a fresh interpreter; the relation is additionally evaluated on the implementation.",
         ["hist", "find-c04"], RULE_PROG),
     "C05": _p(
-        "Theorems on the lexer model: every keyword scans to itself, one-character tokens and their texts are mutually inverse, per-token re-lexing for the token classes proved in Thm/C05.lean, idempotence of relisting on canonical token lists as far as proved. K: lexer model vs real lexer exhaustively over all short strings of the significant alphabet and on random/mutated lines. F: the property's own oracle (same number, same parse, fixed point) on the real Line::new over the exhaustive set and random lines.",
+        "Open known finding K5 (three comparison characters in a row in a tail the parser ignores: listing not a fixed point; proved on the model as adjacent_comparisons_not_faithful, witnesses in corpus/C05). trimEnd_idem: the end-of-line trimming is idempotent (D18). Theorems on the lexer model: every keyword scans to itself, one-character tokens and their texts are mutually inverse, per-token re-lexing for the token classes proved in Thm/C05.lean, idempotence of relisting on canonical token lists as far as proved. K: lexer model vs real lexer exhaustively over all short strings of the significant alphabet and on random/mutated lines. F: the property's own oracle (same number, same parse, fixed point) on the real Line::new over the exhaustive set and random lines.",
         "Partial: the for-all-strings claim is proved for canonical lines only; arbitrary strings are explored exhaustively up to the length bound stated in the evidence.",
         ["lex-exh", "lex-rand", "lex-c05"], "lexer layers: exhaustive strings over the 34-symbol alphabet after three prefixes, random and mutated lines; distinct_nontrivial = distinct request lines", partial="arbitrary strings: bounded exhaustive exploration"),
     "C06": _p(
@@ -77,11 +77,11 @@ PROPS = {
         "Trusted: Rust's shortest round-trip float formatting (core::fmt contract); the model's exact-arithmetic re-implementation is validated against it by the correspondence.",
         ["ops-fmt", "ses", "find-c11"], RULE_PROG),
     "C12": _p(
-        "Theorems: CLEAR sets stack, variables, dimensions, type defaults, functions, CONT state and the data cursor to their start-up values whatever the previous state; NEW additionally empties the listing, marks it dirty and turns tracing off; RUN compiles to exactly [Clear, Jump]. K: sessions with lockstep. F: arbitrary session prefixes followed by RUN / NEW+probe program / CLEAR compared with a fresh interpreter (transcripts and variable dumps).",
+        "Theorem run_identical_to_fresh_run: in any state satisfying the all-histories invariant (C04 inv_reachable) the execution of a direct RUN line is, call for call, state and event identical to that of a fresh interpreter given the listing (tron off, line compiles). Theorems: CLEAR sets stack, variables, dimensions, type defaults, functions, CONT state and the data cursor to their start-up values whatever the previous state; NEW additionally empties the listing, marks it dirty and turns tracing off; RUN compiles to exactly [Clear, Jump]. K: sessions with lockstep. F: arbitrary session prefixes followed by RUN / NEW+probe program / CLEAR compared with a fresh interpreter (transcripts and variable dumps).",
         "Trusted: Lean kernel, model tie. TRON is deliberately carried across RUN (it is how tracing is used).",
         ["hist", "find-c12"], RULE_PROG),
     "C13": _p(
-        "Theorems: executeLoop (m+n) = executeLoop m then n (quantum independence), interrupt saves state/pc, the BREAK report touches only state and the print column, CONT restores them; END/STOP record the continuation point. K: sessions run with quanta 1,2,3,7,5000 in lockstep. F: every interruption point k of generated programs (exhaustive in k for short programs) + CONT vs the uninterrupted run; transcripts for six quanta identical.",
+        "Theorems interrupt_break_cont_transparent / stop_cont_transparent / end_cont_transparent: at the session API, interrupt (or STOP, or END in mid-program), the report calls with ANY quanta, any number of prompt calls, then the typed line CONT, lead back to exactly the interrupted state (pc, stack, variables, functions, rand, listing; print column 0 after the forced line break) with exactly the documented events; inspect_between_harmless: harmless balanced direct statements in between keep the continuation, variables they do not assign, and the stack; resumed_run_coincides_partial: the resumed run coincides with the uninterrupted one (partial: excludes a CONT statement inside the program, TAB/POS after a mid-line break - both exceptions the property names - tron and the recompile path). Theorems: executeLoop (m+n) = executeLoop m then n (quantum independence), interrupt saves state/pc, the BREAK report touches only state and the print column, CONT restores them; END/STOP record the continuation point. K: sessions run with quanta 1,2,3,7,5000 in lockstep. F: every interruption point k of generated programs (exhaustive in k for short programs) + CONT vs the uninterrupted run; transcripts for six quanta identical.",
         "The only permitted differences are the BREAK text and the column reset it forces (programs printing POS are exempt from the interrupt oracle).",
         ["ses", "find-c13"], RULE_PROG),
     "C14": _p(
@@ -89,7 +89,7 @@ PROPS = {
         "Partial: 'behaves identically' is decided by the oracle on the implementation (and by C20's relocation lemmas), not by a composed theorem.",
         ["lex-renum", "lst-renum", "hist", "find-c14"], RULE_PROG, partial="renum_behaviour theorem not composed"),
     "C15": _p(
-        "Theorems: the sorted association list refines the map LineNumber -> Line: insert/replace, delete (absent = no-op), range delete removes exactly the keys in the inclusive range, iterating listLine emits exactly the lines in range in ascending order and terminates, numbering facts of the RENUM plan, error returns leave the listing unchanged. K: exhaustive edit/list/delete histories over {0,5,10,65529} up to the length bound plus random long histories on the Listing type; parser model vs real parser on LIST/DELETE operand forms (parse) and whole edit sessions (hist). F: abstract map vs the real Listing; and (find-c15) typed sessions through the whole interpreter next to a reference BTreeMap: every form n, n-, -n, a-b, bare, inverted, above 65529 of LIST and DELETE with every endpoint of {0,1,5,10,11,65528,65529,65530,99999} over six subsets of a five-number universe, plus random histories over the whole range.",
+        "Theorems: the sorted association list refines the map LineNumber -> Line: insert/replace, delete (absent = no-op), range delete removes exactly the keys in the inclusive range, iterating listLine emits exactly the lines in range in ascending order and terminates, numbering facts of the RENUM plan, error returns leave the listing unchanged. K: exhaustive edit/list/delete histories over {0,5,10,65529} up to the length bound plus random long histories on the Listing type; parser model vs real parser on LIST/DELETE operand forms (parse) and whole edit sessions (hist). Fix D17 is mirrored in the parser model (bare DELETE refused at parse time). F: abstract map vs the real Listing; and (find-c15) typed sessions through the whole interpreter next to a reference BTreeMap: every form n, n-, -n, a-b, bare, inverted, above 65529 of LIST and DELETE with every endpoint of {0,1,5,10,11,65528,65529,65530,99999} over six subsets of a five-number universe, plus random histories over the whole range.",
         "Trusted: Lean kernel, sorted-list model of BTreeMap, correspondence.",
         ["lst-exh", "lst-rand", "parse", "hist", "find-c15"], "lst layers: exhaustive histories over a 4-number universe, random histories over 0..65529; find-c15: see level; distinct_nontrivial = distinct histories"),
     "C16": _p(
@@ -101,7 +101,7 @@ PROPS = {
         "Open known deviations (not raised by the generated cases): INF/NAN spellings accepted as numbers (K3); a user function raising inside an array subscript during INPUT (K2).",
         ["ses", "find-c17"], RULE_PROG),
     "C18": _p(
-        "Theorems: every pool push (runtime stack, code, data) succeeds only up to 65535 elements and otherwise fails with OUT OF MEMORY; ON pops exactly its two operands; RETURN restores the stack below the return address; the repaired ON...GOSUB fall-through pops its own return address; a continuing NEXT re-pushes exactly its frame. K: sessions with state dumps. F: 25 statement kinds x 20 000 iterations (70 000 thorough) end with an empty stack and no OUT OF MEMORY; runaway GOSUB/FN/FOR/array fill end in OUT OF MEMORY with a usable session.",
+        "Theorems expr_pushes_one / let_stack_neutral: a pure expression's code leaves exactly one value more on the stack whatever the machine state, and a completed LET leaves the stack exactly as it found it. Theorems: every pool push (runtime stack, code, data) succeeds only up to 65535 elements and otherwise fails with OUT OF MEMORY; ON pops exactly its two operands; RETURN restores the stack below the return address; the repaired ON...GOSUB fall-through pops its own return address; a continuing NEXT re-pushes exactly its frame. K: sessions with state dumps. F: 25 statement kinds x 20 000 iterations (70 000 thorough) end with an empty stack and no OUT OF MEMORY; runaway GOSUB/FN/FOR/array fill end in OUT OF MEMORY with a usable session.",
         "Partial: stack-neutrality of arbitrary compiled statements is explored (loops), not proved.",
         ["ses", "find-c18"], RULE_PROG, partial="stmt_stack_neutral for all statements: exploration"),
     "C19": _p(
